@@ -30,10 +30,13 @@ def cases(tier, seed):
         yield f"C13|{ft}|{par},{how}|structure", {"kind": "structure", "ft": ft, "par": par, "how": how, "tier": tier}
         if ft != "lognormal":
             yield f"C13|{ft}|{par},{how}|gain", {"kind": "gain", "ft": ft, "par": par, "how": how, "tier": tier}
+    # one LONG sequence beyond 2^24 samples per item (index arithmetic in single precision stops being exact there)
+    for T_ in (7, 16):
+        yield f"C13|long|T={T_}", {"kind": "long", "T": T_, "ft": "rayleigh", "tier": tier}
 
 
 def component_of(p):
-    return p["ft"]
+    return p.get("ft", "long")
 
 
 def make(ft, par, how, T, **noise):
@@ -49,7 +52,7 @@ def make(ft, par, how, T, **noise):
 
 
 def execute(p, res):
-    {"structure": structure_case, "gain": gain_case}[p["kind"]](p, res)
+    {"structure": structure_case, "gain": gain_case, "long": long_case}[p["kind"]](p, res)
 
 
 def _x(shape, cplx):
@@ -180,6 +183,43 @@ def structure_case(p, res):
                             v("private-draws", f"blocks are controlled by different numbers of draws: {sorted({len(o) for o in owner.values()})}")
                     res.outcome((ft, D, B * nb))
     res.sample({"type": ft, "param": par, "how": how})
+
+
+def long_case(p, res):
+    """block constancy and block-to-block change on a sequence of 2^24 + 4099 samples (1-D and as one image-like item), coherence time T"""
+    import torch
+    import kaira.channels as K
+    T = p["T"]
+    L = (1 << 24) + 4099
+    for shape in ((L,), (1, 3, 2368, 2368)):
+        n = 1
+        for d_ in shape:
+            n *= d_
+        cfg = f"T={T},shape={'x'.join(map(str, shape))}"
+        try:
+            torch.manual_seed(5)
+            ch = K.RayleighFadingChannel(coherence_time=T, avg_noise_power=0.1)
+            x = torch.ones(shape, dtype=torch.complex64)
+            y = ch(x, noise=torch.zeros(shape if len(shape) > 1 else shape, dtype=torch.complex64).reshape(1, -1) if len(shape) > 1 else torch.zeros(shape, dtype=torch.complex64))
+        except Exception as e:  # noqa: BLE001
+            res.viol("rayleigh", cfg, "raises", f"{type(e).__name__}: {str(e)[:200]}")
+            continue
+        res.ev(n, nontrivial=n, transitions=1)
+        if tuple(y.shape) != tuple(shape):
+            res.viol("rayleigh", cfg, "shape", f"output shape {tuple(y.shape)}")
+            continue
+        h = y.reshape(-1)
+        idx = torch.arange(n, dtype=torch.int64)
+        start = (idx // T) * T
+        bad = (h != h[start]).nonzero()
+        if bad.numel():
+            i = int(bad[0])
+            res.viol("rayleigh", cfg, "block-constant", f"sample {i} (block {i // T}, offset {i % T}) has gain {complex(h[i]):.4f} but the first sample of its block has {complex(h[int(start[i])]):.4f}; {int(bad.numel())} samples differ from their block's first sample")
+        firsts = h[::T]
+        same_next = int((firsts[1:] == firsts[:-1]).sum())
+        if same_next:
+            res.viol("rayleigh", cfg, "private-draws", f"{same_next} consecutive blocks share one gain")
+    res.sample({"L": L, "T": T})
 
 
 def gain_case(p, res):
